@@ -5,7 +5,7 @@
    address again, so ABA on the packed head word is inside the statements, not assumed away. *)
 From Coq Require Import List Arith Bool ZArith.
 Import ListNotations.
-Require Import MayV.Queue.SpmcModel MayV.Queue.SpmcInv MayV.Queue.SpmcFacts MayV.Queue.SpmcThm MayV.Queue.SpmcOrder MayV.Queue.SpmcAccept.
+Require Import MayV.Queue.SpmcModel MayV.Queue.SpmcInv MayV.Queue.SpmcFacts MayV.Queue.SpmcThm MayV.Queue.SpmcOrder MayV.Queue.SpmcNoWait MayV.Queue.SpmcAccept.
 
 (* (i) Each task is obtained at most once, and only a task that was pushed: the log of everything any
    pop / local_pop / bulk_pop / steal_into read from a slot has no logical slot index twice, every
@@ -81,6 +81,18 @@ Theorem C04_read_and_release_enabled :
   forall B reuse s a x, Reach B reuse s -> (pc (A s a) = XG \/ pc (A s a) = XM) -> exists s1, step B reuse s (Step a x) = Some s1.
 Proof. exact read_and_release_enabled. Qed.
 Print Assumptions C04_read_and_release_enabled.
+
+(* (iii) Without address reuse the head never passes the tail and a claimer never waits: the 10 ms sleep loops of
+   pop / bulk_pop are entered only after an ABA on the head word (C04_overclaim_reachable_with_reuse below is a
+   witness that they are entered with reuse). *)
+Theorem C04_head_never_passes_tail_without_reuse :
+  forall B, 1 <= B -> forall s, Reach B false s -> HL s <= tix s.
+Proof. exact head_never_passes_tail. Qed.
+Print Assumptions C04_head_never_passes_tail_without_reuse.
+Theorem C04_no_wait_without_reuse :
+  forall B, 1 <= B -> forall s a, Reach B false s -> pc (A s a) = XW -> pend (A s a) <= tix s.
+Proof. exact no_wait_without_reuse. Qed.
+Print Assumptions C04_no_wait_without_reuse.
 
 (* (iii) While claims reach beyond tail.index the owner's own emptiness test holds: its local_pop answers None. *)
 Theorem C04_overclaim_means_owner_sees_empty :
